@@ -1,7 +1,7 @@
 (* C17 — Governance: only the listed owner changes a parameter or moves DAO funds. Statements only. *)
 From Coq Require Import List ZArith NArith Bool.
 From PM Require Import Base.Bytes Store.KV Store.MergeProofs Num.IntModel Num.DecModel Num.DecProofs
-  App.Model App.BankProofs App.TxProofs App.KeyProofs App.GovProofs App.PoolProofs App.DaoProofs App.Examples App.Invariants.
+  App.Model App.BankProofs App.TxProofs App.KeyProofs App.GovProofs App.PoolProofs App.DaoProofs App.Examples App.Invariants App.KeyTypes App.KeyTypesMore.
 Import ListNotations.
 Local Open Scope Z_scope.
 
@@ -26,6 +26,12 @@ Theorem C17_only_the_owners_tx_changes_parameters s o s' : step s o = Some s' ->
     ((exists f key v raw wf, t_msg t = MChangeParam f key v raw wf /\ beqb (owner_of (acl s) key) f = true /\ msg_signer (t_msg t) = f) \/
      (exists f h raw, t_msg t = MUpgrade f h raw /\ beqb (owner_of (acl s) [103;111;118;47;117;112;103;114;97;100;101]%N) f = true)).
 Proof. exact (params_change_only_by_owner_tx s o s'). Qed.
+(* ... and the same when the consensus parameters admit ed25519 validator keys only (step_cp, App/KeyTypes.v) *)
+Theorem C17_only_the_owners_tx_changes_parameters_under_key_restriction r s o s' : step_cp r s o = Some s' -> gov_view s' <> gov_view s ->
+  exists t s1, o = OTx t /\ ante s t = Some s1 /\ acl s1 = acl s /\
+    ((exists f key v raw wf, t_msg t = MChangeParam f key v raw wf /\ beqb (owner_of (acl s) key) f = true /\ msg_signer (t_msg t) = f) \/
+     (exists f h raw, t_msg t = MUpgrade f h raw /\ beqb (owner_of (acl s) [103;111;118;47;117;112;103;114;97;100;101]%N) f = true)).
+Proof. exact (params_change_only_by_owner_tx_cp r s o s'). Qed.
 Theorem C17_begin_block_changes_no_parameter s h t prop votes evs s' : begin_block s h t prop votes evs = Some s' -> gov_view s' = gov_view s.
 Proof. exact (gv_begin_block s h t prop votes evs s'). Qed.
 Theorem C17_end_block_changes_no_parameter s s' ups : end_block s = Some (s', ups) -> gov_view s' = gov_view s.
@@ -53,4 +59,5 @@ Proof. vm_compute. split; [reflexivity|eexists; split; reflexivity]. Qed.
 Print Assumptions C17_params_change_needs_owner.
 Print Assumptions C17_dao_needs_owner.
 Print Assumptions C17_only_the_owners_tx_changes_parameters.
+Print Assumptions C17_only_the_owners_tx_changes_parameters_under_key_restriction.
 Print Assumptions C17_dao_balance_falls_only_by_the_owners_message.
